@@ -30,8 +30,53 @@ def make_plan(full):
     return plan
 
 
+def design_level(chk):
+    """MergeAlgo.tla with strategies: TLC checks UseSideResolved / UseSideEquiv (and the other invariants) on the
+    transcription for every triple x strategy configuration; the emitted cases are compared with nbdime (drift) and
+    returned for the validation of the real generic merger under the same Strategies."""
+    from .c05 import merge_algo
+    cases = []
+    if chk.quick:
+        runs = [("lists", 2, True, 2, "all", "few"), ("strings", 1, True, 2, "all", "all"), ("objects", 1, True, 2, "all", "few")]
+    else:
+        runs = [("lists", 2, True, 2, "all", "all"), ("lists", 3, False, 2, "all", "few"), ("strings", 1, True, 3, "all", "all"),
+                ("strings", 2, False, 2, "all", "all"), ("objects", 1, True, 2, "all", "all"),
+                ("nested", 1, True, 2, "all", "few"), ("nested", 1, False, 3, "all", "all")]
+    for kind, maxlen, emit, nins, npatch, strat in runs:
+        for c in merge_algo(chk, maxlen, emit, kind=kind, nins=nins, npatch=npatch, strat=strat):
+            cases.append((kind,) + c)
+    return cases
+
+
+def generic_tasks(cases, r, cap):
+    """One event per (base, local, remote, item/key strategies, transients) of the model's cases in which a use-*
+    strategy sits on the document: the open merge (that strategy left out) and the three use-<side> merges."""
+    import json
+    groups = {}
+    for kind, b, l, rr, st, sd, tr in cases:
+        if st["l"] not in ("use-base", "use-local", "use-remote") or st["i"].startswith("use-"):
+            continue
+        rest = {k: v for k, v in sd.items() if k != "/"}
+        key = json.dumps([kind, b, l, rr, rest, tr], sort_keys=True)
+        groups.setdefault(key, (kind, b, l, rr, rest, tr))
+    keys = sorted(groups)
+    r.shuffle(keys)
+    tasks = []
+    for n, key in enumerate(keys[:cap]):
+        kind, b, l, rr, rest, tr = groups[key]
+        plan = [plan_item("tool", gstrat=rest, gtrans=tr)]
+        for side in SIDES:
+            gs = dict(rest)
+            gs["/"] = "use-" + side
+            plan.append(plan_item("json", gstrat=gs, gtrans=tr, extra={"side": side, "toolkey": "toolD"}))
+        tasks.append(("algo-%s-%d" % (kind, n), b, l, rr, plan, {"generic": True}))
+    return tasks
+
+
 def run():
     chk = Check("C10")
+    cases = design_level(chk)
+    gtasks = generic_tasks(cases, common.rng("c10g"), 1200 if chk.quick else 12000)
     corp = Corpus(chk)
     if chk.quick:
         triples = corp.triples(n_enum=600, n_random=140, salt="c10") + mergefam.sweep(chk, "useside", 100)
@@ -39,10 +84,14 @@ def run():
         triples = corp.triples(n_enum=9000, n_random=4000, random_maxedits=5, salt="c10") + mergefam.sweep(chk, "useside", 1000, positions=("same", "adjacent", "apart"))
     tasks = [(name, b, l, rr, make_plan(k % 3 == 0 or not chk.quick), {}) for k, (name, b, l, rr, info) in enumerate(triples)]
     info = {t[0]: t[4] for t in triples}
-    events = mergefam.generate(tasks)
+    events = mergefam.generate(tasks + gtasks)
+    for t in gtasks:
+        info[t[0]] = {"abstract": t[0], "script": {"generic": True}}
     for tid, names in events.meta:
         chk.count((info[tid].get("abstract"),), nontrivial=True, n=len(names))
-    v = mergefam.validate(chk, events, "MergeTrace on %d triples" % len(events))
+    chk.notes["generic_strategy_events"] = len(gtasks)
+    v = mergefam.validate(chk, events, "MergeTrace on %d notebook triples + %d generic triples of MergeAlgo's strategy cases"
+                          % (len(tasks), len(gtasks)))
     idx = mergefam.index_runs(events)
     for key, cl in v.fails.items():
         ev, run_ = idx[key]
